@@ -2788,6 +2788,11 @@ class GraphEmbed(Decomposition):
                 rtol=0,
             )
 
+    def merge(self, other):
+        # the parameter is an adjacency matrix, not a transformation: the product of two
+        # adjacency matrices does not describe the two embeddings applied in sequence
+        raise MergeFailure("Graph embeddings cannot be merged.")
+
     def _decompose(self, reg, **kwargs):
         cmds = []
 
@@ -2865,6 +2870,10 @@ class BipartiteGraphEmbed(Decomposition):
             B = A[:N, N:]
 
         super().__init__([B])
+
+    def merge(self, other):
+        # see GraphEmbed.merge
+        raise MergeFailure("Graph embeddings cannot be merged.")
 
     def _decompose(self, reg, **kwargs):
         mean_photon_per_mode = kwargs.get("mean_photon_per_mode", self.mean_photon_per_mode)
